@@ -281,14 +281,14 @@ def view(P, f, keep=None, hold=None):
     if k not in cache:
         if keep is None:
             pinned = pinned_fns()
-            base = I.helper_like(P, None, allow_recursive=True)   # one (bounded) unfolding of a new helper that calls back is fine
+            base = I.helper_like(P, None, max_blocks=400, allow_recursive=True)   # one (bounded) unfolding of a new helper that calls back is fine
             sel = lambda g: base(g) and g.spath not in pinned and not (hold_rx and hold_rx.search(g.spath))
         else:
             pinned = pinned_fns()
             base = I.helper_like(P, keep)
             # new (unpinned) helpers are always looked through, also when they happen to match `keep` - except those in `hold`
             # (a function the rule discovered structurally and wants to see as a call)
-            auto = I.helper_like(P, None, allow_recursive=True)
+            auto = I.helper_like(P, None, max_blocks=400, allow_recursive=True)
             sel = lambda g: (base(g) or (auto(g) and g.spath not in pinned)) and not (hold_rx and hold_rx.search(g.spath))
         v = I.inline(P, f, sel)
         cache[k] = v if v.inlined else f
